@@ -338,7 +338,9 @@ def check_kernels(field, fns=None, timeout=None):
             # fresh solvers and steadier).  z3's LIA run time still varies from run to run, so an `unknown` is retried on a
             # solver with another seed and a doubled cap before the obligation is called inconclusive.
             t0 = time.time(); r = z3.unknown
-            plan = [(tmo, 0), (2 * tmo, 7)] if common.tier() == 'quick' else [(tmo, 0), (2 * tmo, 7), (4 * tmo, 13)]
+            # restart strategy: the typical query needs under a minute, an unlucky run of the same query ten times longer - short caps and
+            # fresh seeds first, long caps last
+            plan = [(60000, 0), (60000, 7), (120000, 13), (240000, 21), (480000, 34)] if common.tier() == 'quick' else [(120000, 0), (120000, 7), (240000, 13), (480000, 21), (1200000, 34)]
             for k, (cap, sd) in enumerate(plan):
                 if k not in solvers:
                     s_ = z3.Solver(); s_.set('random_seed', sd); s_.add(E.cons); s_.add(pre); solvers[k] = s_
